@@ -3,123 +3,104 @@ namespace Emboss.Types
 
 theorem append_eq_nil' {α} {a b : List α} : a ++ b = [] ↔ a = [] ∧ b = [] := List.append_eq_nil_iff
 
-theorem argErr_nil {want : Ty} {i : Nat} {a : Expr} {t : Ty} : argErr want i a t = [] ↔ t = want := by
+theorem argErr_nil {file : FileId} {want : Ty} {i : Nat} {a : Expr} {t : Ty} :
+    argErr file want i a t = [] ↔ t = want := by
   unfold argErr; split <;> simp_all
 
-theorem cmpAcc_not_absent {op : BinOp} : cmpAcceptable op .absent = false := by
+theorem cmpAcc_not_none {op : BinOp} : cmpAcceptable op .none = false := by
   cases op <;> rfl
 
 /-- characterisation of acceptance for a binary operator in terms of its operands' results -/
-theorem bin_ok (l : Loc) (op : BinOp) (a b : Expr) (τ : Ty) :
-    Ok (tc (.bin l op a b)) τ ↔
-      (tc a).errs = [] ∧ (tc a).crash = none ∧ (tc b).errs = [] ∧ (tc b).crash = none ∧
-      ((op.isCmp = true ∧ cmpAcceptable op (tc a).ty = true ∧ (tc a).ty = (tc b).ty ∧ τ = .bool) ∨
-       (op.isCmp = false ∧ (tc a).ty = op.mono ∧ (tc b).ty = op.mono ∧ τ = op.mono)) := by
+theorem bin_ok (file : FileId) (l : Loc) (op : BinOp) (a b : Expr) (τ : Ty) :
+    Ok (tc file (.bin l op a b)) τ ↔
+      (tc file a).errs = [] ∧ (tc file b).errs = [] ∧
+      ((op.isCmp = true ∧ cmpAcceptable op (tc file a).ty = true ∧ (tc file a).ty = (tc file b).ty ∧ τ = .bool) ∨
+       (op.isCmp = false ∧ (tc file a).ty = op.mono ∧ (tc file b).ty = op.mono ∧ τ = op.mono)) := by
   simp only [tc, Ok]
-  have := @cmpAcc_not_absent op
   repeat' split
-  all_goals simp_all [argErr_nil, orCrash_none]
+  all_goals simp_all [argErr_nil]
   all_goals grind
 
-theorem choice_ok (l : Loc) (c t f : Expr) (τ : Ty) :
-    Ok (tc (.choice l c t f)) τ ↔
-      (tc c).errs = [] ∧ (tc c).crash = none ∧ (tc t).errs = [] ∧ (tc t).crash = none ∧
-      (tc f).errs = [] ∧ (tc f).crash = none ∧
-      (tc c).ty = .bool ∧ (tc t).ty.isValue = true ∧ (tc t).ty = (tc f).ty ∧ τ = (tc t).ty := by
+theorem choice_ok (file : FileId) (l : Loc) (c t f : Expr) (τ : Ty) :
+    Ok (tc file (.choice l c t f)) τ ↔
+      (tc file c).errs = [] ∧ (tc file t).errs = [] ∧ (tc file f).errs = [] ∧
+      (tc file c).ty = .bool ∧ (tc file t).ty.isValue = true ∧ (tc file t).ty = (tc file f).ty ∧
+      τ = (tc file t).ty := by
   simp only [tc, Ok]
-  have h0 : Ty.absent.isValue = false := rfl
   repeat' split
-  all_goals simp_all [orCrash_none]
+  all_goals simp_all
   all_goals grind
 
-theorem fn_ok (l : Loc) (f : Fn) (args : List Expr) (τ : Ty) :
-    Ok (tc (.fn l f args)) τ ↔
-      (tcList args).errs = [] ∧ (tcList args).crash = none ∧
-      fnArgErrs f 0 args (tcList args).tys = [] ∧ f.arityOk args.length = true ∧ τ = f.result := by
+theorem fn_ok (file : FileId) (l : Loc) (f : Fn) (args : List Expr) (τ : Ty) :
+    Ok (tc file (.fn l f args)) τ ↔
+      (tcList file args).errs = [] ∧
+      fnArgErrs file f 0 args (tcList file args).tys = [] ∧ f.arityOk args.length = true ∧ τ = f.result := by
   simp only [tc, Ok]
   split
   all_goals simp_all
   all_goals grind
 
-theorem hasType_annotated {c : Bool} {e : Expr} {τ : Ty} (h : HasType c e τ) : τ.annotated = true := by
+/-- a typed expression has *some* type: never `none` -/
+theorem hasType_ne_none {c : Bool} {e : Expr} {τ : Ty} (h : HasType c e τ) : τ ≠ .none := by
   induction h with
-  | lparam => rename_i t; cases t <;> rfl
-  | lphys => rename_i t; cases t <;> rfl
+  | lparam => rename_i t; cases t <;> simp [DTy.toTy]
+  | lphys => rename_i t; cases t <;> simp [DTy.toTy]
   | choice _ hv _ _ _ iht _ => exact iht
-  | _ => first | rfl | assumption
+  | lvirt _ ih => exact ih
+  | cvirt _ ih => exact ih
+  | _ => simp
 
 mutual
-theorem tc_iff (e : Expr) : ∀ τ, Ok (tc e) τ ↔ HasType true e τ :=
+theorem tc_iff (e : Expr) : ∀ (file : FileId) (τ : Ty), Ok (tc file e) τ ↔ HasType true e τ :=
   match e with
-  | .num l => fun τ => by
+  | .num l => fun file τ => by
     simp only [tc, Res.pure, Ok, true_and]
     exact ⟨fun h => h ▸ .num, fun h => by cases h; rfl⟩
-  | .boolc l => fun τ => by
+  | .boolc l => fun file τ => by
     simp only [tc, Res.pure, Ok, true_and]
     exact ⟨fun h => h ▸ .boolc, fun h => by cases h; rfl⟩
-  | .enumv l n => fun τ => by
+  | .enumv l n => fun file τ => by
     simp only [tc, Res.pure, Ok, true_and]
     exact ⟨fun h => h ▸ .enumv, fun h => by cases h; rfl⟩
-  | .cphys l dl => fun τ => by
+  | .cphys l df dl => fun file τ => by
     simp only [tc, Ok]
     exact ⟨fun h => by simp at h, fun h => by cases h⟩
-  | .cother l => fun τ => by
+  | .cother l => fun file τ => by
     simp only [tc, Ok]
     exact ⟨fun h => by simp at h, fun h => by cases h⟩
-  | .lparamArr l => fun τ => by
-    simp only [tc, Ok]
-    exact ⟨fun h => by simp at h, fun h => by cases h⟩
-  | .lparam l t => fun τ => by
+  | .lparamArr l => fun file τ => by
+    simp only [tc, Res.pure, Ok, true_and]
+    exact ⟨fun h => h ▸ .lparamArr, fun h => by cases h; rfl⟩
+  | .lparam l t => fun file τ => by
     simp only [tc, Res.pure, Ok, true_and]
     exact ⟨fun h => h ▸ .lparam, fun h => by cases h; rfl⟩
-  | .lphys l t => fun τ => by
+  | .lphys l t => fun file τ => by
     simp only [tc, Res.pure, Ok, true_and]
     exact ⟨fun h => h ▸ .lphys, fun h => by cases h; rfl⟩
-  | .builtin l b => fun τ => by
-    simp only [tc, Res.pure, Ok, true_and]
+  | .builtin l b => fun file τ => by
     cases b
-    · exact ⟨fun h => h ▸ .builtinI, fun h => by cases h; rfl⟩
-    · exact ⟨fun h => h ▸ .builtinB, fun h => by cases h; rfl⟩
-  | .cvirt l d => fun τ => by
-    have ih := tc_iff d
-    simp only [tc, Ok]
-    constructor
-    · rintro ⟨h1, h2, h3⟩
-      have hd := (ih (tc d).ty).1 ⟨h1, h2, rfl⟩
-      have ha := hasType_annotated hd
-      have : (tc d).ty.copied = (tc d).ty := by cases h : (tc d).ty <;> simp_all [Ty.copied, Ty.annotated]
-      rw [this] at h3; exact h3 ▸ .cvirt hd
-    · intro h; cases h with
-      | cvirt hd =>
-        obtain ⟨h1, h2, h3⟩ := (ih τ).2 hd
-        have ha := hasType_annotated hd
-        refine ⟨h1, h2, ?_⟩
-        rw [h3]; cases τ <;> simp_all [Ty.copied, Ty.annotated]
-  | .lvirt l d => fun τ => by
-    have ih := tc_iff d
-    simp only [tc, Ok]
-    constructor
-    · rintro ⟨h1, h2, h3⟩
-      have h1' : (tc d).errs = [] := by
-        by_cases ha : (tc d).ty.annotated = true <;> simp_all
-      have hd := (ih (tc d).ty).1 ⟨h1', h2, rfl⟩
-      have ha := hasType_annotated hd
-      have : (tc d).ty.copied = (tc d).ty := by cases h : (tc d).ty <;> simp_all [Ty.copied, Ty.annotated]
-      rw [this] at h3; exact h3 ▸ .lvirt hd
-    · intro h; cases h with
-      | lvirt hd =>
-        obtain ⟨h1, h2, h3⟩ := (ih τ).2 hd
-        have ha := hasType_annotated hd
-        refine ⟨by simp [h1], h2, ?_⟩
-        rw [h3]; cases τ <;> simp_all [Ty.copied, Ty.annotated]
-  | .bin l op a b => fun τ => by
-    have iha := tc_iff a
-    have ihb := tc_iff b
+    · simp only [tc, Res.pure, Ok, true_and]
+      exact ⟨fun h => h ▸ .builtinB, fun h => by cases h; rfl⟩
+    · simp only [tc, Res.pure, Ok, true_and]
+      exact ⟨fun h => h ▸ .builtinI, fun h => by cases h; rfl⟩
+    · simp only [tc, Ok]
+      exact ⟨fun h => by simp at h, fun h => by cases h⟩
+  | .cvirt l df d => fun file τ => by
+    have ih := tc_iff d df τ
+    simp only [tc]
+    exact ⟨fun h => .cvirt (ih.1 h), fun h => by cases h with | cvirt hd => exact ih.2 hd⟩
+  | .lvirt l df d => fun file τ => by
+    have ih := tc_iff d df τ
+    simp only [tc]
+    exact ⟨fun h => .lvirt (ih.1 h), fun h => by cases h with | lvirt hd => exact ih.2 hd⟩
+  | .bin l op a b => fun file τ => by
+    have iha := tc_iff a file
+    have ihb := tc_iff b file
     rw [bin_ok]
     constructor
-    · rintro ⟨ea, ca, eb, cb, h⟩
-      have ha := (iha (tc a).ty).1 ⟨ea, ca, rfl⟩
-      have hb := (ihb (tc b).ty).1 ⟨eb, cb, rfl⟩
+    · rintro ⟨ea, eb, h⟩
+      have ha := (iha (tc file a).ty).1 ⟨ea, rfl⟩
+      have hb := (ihb (tc file b).ty).1 ⟨eb, rfl⟩
       rcases h with ⟨hc, hacc, hty, rfl⟩ | ⟨hc, h1, h2, rfl⟩
       · rw [← hty] at hb
         by_cases he : op.isEquality = true
@@ -127,7 +108,7 @@ theorem tc_iff (e : Expr) : ∀ τ, Ok (tc e) τ ↔ HasType true e τ :=
           exact .equal (by cases op <;> simp_all [BinOp.isEquality, BinOp.isEq]) hacc ha hb
         · have ho : op.isOrd := by cases op <;> simp_all [BinOp.isEquality, BinOp.isOrd, BinOp.isCmp]
           simp only [cmpAcceptable, he, Bool.false_eq_true, if_false] at hacc
-          cases hta : (tc a).ty <;> simp [hta] at hacc
+          cases hta : (tc file a).ty <;> simp [hta] at hacc
           · rw [hta] at ha hb; exact .order ho ha hb
           · rw [hta] at ha hb; exact .orderEnum rfl ho ha hb
       · rw [h1] at ha; rw [h2] at hb
@@ -140,55 +121,55 @@ theorem tc_iff (e : Expr) : ∀ τ, Ok (tc e) τ ↔ HasType true e τ :=
     · intro h
       cases h with
       | arith ho ha hb =>
-        obtain ⟨ea, ca, ta⟩ := (iha _).2 ha
-        obtain ⟨eb, cb, tb⟩ := (ihb _).2 hb
-        refine ⟨ea, ca, eb, cb, .inr ?_⟩
+        obtain ⟨ea, ta⟩ := (iha _).2 ha
+        obtain ⟨eb, tb⟩ := (ihb _).2 hb
+        refine ⟨ea, eb, .inr ?_⟩
         rcases ho with rfl | rfl | rfl <;> simp [BinOp.isCmp, BinOp.mono, ta, tb]
       | logic ho ha hb =>
-        obtain ⟨ea, ca, ta⟩ := (iha _).2 ha
-        obtain ⟨eb, cb, tb⟩ := (ihb _).2 hb
-        refine ⟨ea, ca, eb, cb, .inr ?_⟩
+        obtain ⟨ea, ta⟩ := (iha _).2 ha
+        obtain ⟨eb, tb⟩ := (ihb _).2 hb
+        refine ⟨ea, eb, .inr ?_⟩
         rcases ho with rfl | rfl <;> simp [BinOp.isCmp, BinOp.mono, ta, tb]
       | equal ho hv ha hb =>
-        obtain ⟨ea, ca, ta⟩ := (iha _).2 ha
-        obtain ⟨eb, cb, tb⟩ := (ihb _).2 hb
-        refine ⟨ea, ca, eb, cb, .inl ?_⟩
+        obtain ⟨ea, ta⟩ := (iha _).2 ha
+        obtain ⟨eb, tb⟩ := (ihb _).2 hb
+        refine ⟨ea, eb, .inl ?_⟩
         rcases ho with rfl | rfl <;> simp [BinOp.isCmp, cmpAcceptable, BinOp.isEquality, ta, tb, hv]
       | order ho ha hb =>
-        obtain ⟨ea, ca, ta⟩ := (iha _).2 ha
-        obtain ⟨eb, cb, tb⟩ := (ihb _).2 hb
-        refine ⟨ea, ca, eb, cb, .inl ?_⟩
+        obtain ⟨ea, ta⟩ := (iha _).2 ha
+        obtain ⟨eb, tb⟩ := (ihb _).2 hb
+        refine ⟨ea, eb, .inl ?_⟩
         rcases ho with rfl | rfl | rfl | rfl <;> simp [BinOp.isCmp, cmpAcceptable, BinOp.isEquality, ta, tb]
       | orderEnum _ ho ha hb =>
-        obtain ⟨ea, ca, ta⟩ := (iha _).2 ha
-        obtain ⟨eb, cb, tb⟩ := (ihb _).2 hb
-        refine ⟨ea, ca, eb, cb, .inl ?_⟩
+        obtain ⟨ea, ta⟩ := (iha _).2 ha
+        obtain ⟨eb, tb⟩ := (ihb _).2 hb
+        refine ⟨ea, eb, .inl ?_⟩
         rcases ho with rfl | rfl | rfl | rfl <;> simp [BinOp.isCmp, cmpAcceptable, BinOp.isEquality, ta, tb]
-  | .choice l c t f => fun τ => by
-    have ihc := tc_iff c
-    have iht := tc_iff t
-    have ihf := tc_iff f
+  | .choice l c t f => fun file τ => by
+    have ihc := tc_iff c file
+    have iht := tc_iff t file
+    have ihf := tc_iff f file
     rw [choice_ok]
     constructor
-    · rintro ⟨ec, cc, et, ct, ef, cf, hb, hv, hty, rfl⟩
-      have hc := (ihc _).1 ⟨ec, cc, hb⟩
-      have ht := (iht (tc t).ty).1 ⟨et, ct, rfl⟩
-      have hf := (ihf (tc t).ty).1 ⟨ef, cf, hty.symm⟩
+    · rintro ⟨ec, et, ef, hb, hv, hty, rfl⟩
+      have hc := (ihc _).1 ⟨ec, hb⟩
+      have ht := (iht (tc file t).ty).1 ⟨et, rfl⟩
+      have hf := (ihf (tc file t).ty).1 ⟨ef, hty.symm⟩
       exact .choice hc hv ht hf
     · intro h
       cases h with
       | choice hc hv ht hf =>
-        obtain ⟨ec, cc, tc'⟩ := (ihc _).2 hc
-        obtain ⟨et, ct, tt⟩ := (iht _).2 ht
-        obtain ⟨ef, cf, tf⟩ := (ihf _).2 hf
-        exact ⟨ec, cc, et, ct, ef, cf, tc', tt ▸ hv, tt.trans tf.symm, tt.symm⟩
-  | .fn l f args => fun τ => by
-    have ih := tcList_iff args
+        obtain ⟨ec, tc'⟩ := (ihc _).2 hc
+        obtain ⟨et, tt⟩ := (iht _).2 ht
+        obtain ⟨ef, tf⟩ := (ihf _).2 hf
+        exact ⟨ec, et, ef, tc', tt ▸ hv, tt.trans tf.symm, tt.symm⟩
+  | .fn l f args => fun file τ => by
+    have ih := tcList_iff args file
     rw [fn_ok]
-    have hlen := tcList_length args
+    have hlen := tcList_length file args
     constructor
-    · rintro ⟨e, c, ha, har, rfl⟩
-      have hall := (ih _).1 ⟨e, c, rfl⟩
+    · rintro ⟨e, ha, har, rfl⟩
+      have hall := (ih _).1 ⟨e, rfl⟩
       cases f with
       | present =>
         match args, hall, ha, har with
@@ -196,16 +177,16 @@ theorem tc_iff (e : Expr) : ∀ τ, Ok (tc e) τ ↔ HasType true e τ :=
           cases hall with
           | cons h1 _ =>
             simp only [tcList] at ha
-            exact .present ((fnArgErrs_present _ _ _).1 ha) h1
+            exact .present ((fnArgErrs_present _ _ _ _).1 ha) h1
         | [], _, _, har => simp [Fn.arityOk] at har
         | _ :: _ :: _, _, _, har => simp [Fn.arityOk] at har
       | max =>
-        have hint := (fnArgErrs_int .max (by decide) 0 args _ hlen).1 ha
+        have hint := (fnArgErrs_int file .max (by decide) 0 args _ hlen).1 ha
         rw [eq_replicate_of_all hint, hlen] at hall
         refine .max ?_ ((allTyped_replicate args .int).1 hall)
         intro h; simp [h, Fn.arityOk] at har
       | upper =>
-        have hint := (fnArgErrs_int .upper (by decide) 0 args _ hlen).1 ha
+        have hint := (fnArgErrs_int file .upper (by decide) 0 args _ hlen).1 ha
         rw [eq_replicate_of_all hint, hlen] at hall
         have := (allTyped_replicate args .int).1 hall
         match args, har, this with
@@ -213,7 +194,7 @@ theorem tc_iff (e : Expr) : ∀ τ, Ok (tc e) τ ↔ HasType true e τ :=
         | [], har, _ => simp [Fn.arityOk] at har
         | _ :: _ :: _, har, _ => simp [Fn.arityOk] at har
       | lower =>
-        have hint := (fnArgErrs_int .lower (by decide) 0 args _ hlen).1 ha
+        have hint := (fnArgErrs_int file .lower (by decide) 0 args _ hlen).1 ha
         rw [eq_replicate_of_all hint, hlen] at hall
         have := (allTyped_replicate args .int).1 hall
         match args, har, this with
@@ -224,48 +205,48 @@ theorem tc_iff (e : Expr) : ∀ τ, Ok (tc e) τ ↔ HasType true e τ :=
       cases h with
       | max hne hall =>
         have h2 := (allTyped_replicate args .int).2 hall
-        obtain ⟨e, c, t⟩ := (ih _).2 h2
-        refine ⟨e, c, ?_, ?_, rfl⟩
-        · rw [fnArgErrs_int .max (by decide) 0 args _ hlen, t]
+        obtain ⟨e, t⟩ := (ih _).2 h2
+        refine ⟨e, ?_, ?_, rfl⟩
+        · rw [fnArgErrs_int file .max (by decide) 0 args _ hlen, t]
           intro x hx; exact List.eq_of_mem_replicate hx
         · cases args <;> simp_all [Fn.arityOk]
       | present hfr ha =>
         rename_i a τa
         have h2 : AllTyped true [a] [τa] := .cons ha .nil
-        obtain ⟨e, c, t⟩ := (ih _).2 h2
-        refine ⟨e, c, ?_, by simp [Fn.arityOk], rfl⟩
-        rw [t]; exact (fnArgErrs_present _ _ _).2 hfr
+        obtain ⟨e, t⟩ := (ih _).2 h2
+        refine ⟨e, ?_, by simp [Fn.arityOk], rfl⟩
+        rw [t]; exact (fnArgErrs_present _ _ _ _).2 hfr
       | upper ha =>
         rename_i a
         have h2 : AllTyped true [a] [.int] := .cons ha .nil
-        obtain ⟨e, c, t⟩ := (ih _).2 h2
-        refine ⟨e, c, ?_, by simp [Fn.arityOk], rfl⟩
+        obtain ⟨e, t⟩ := (ih _).2 h2
+        refine ⟨e, ?_, by simp [Fn.arityOk], rfl⟩
         rw [t]; simp [fnArgErrs, argErr]
       | lower ha =>
         rename_i a
         have h2 : AllTyped true [a] [.int] := .cons ha .nil
-        obtain ⟨e, c, t⟩ := (ih _).2 h2
-        refine ⟨e, c, ?_, by simp [Fn.arityOk], rfl⟩
+        obtain ⟨e, t⟩ := (ih _).2 h2
+        refine ⟨e, ?_, by simp [Fn.arityOk], rfl⟩
         rw [t]; simp [fnArgErrs, argErr]
 theorem tcList_iff (es : List Expr) :
-    ∀ τs, ((tcList es).errs = [] ∧ (tcList es).crash = none ∧ (tcList es).tys = τs) ↔ AllTyped true es τs :=
+    ∀ (file : FileId) τs, ((tcList file es).errs = [] ∧ (tcList file es).tys = τs) ↔ AllTyped true es τs :=
   match es with
-  | [] => fun τs => by
+  | [] => fun file τs => by
     simp only [tcList, true_and]
     exact ⟨fun h => h ▸ .nil, fun h => by cases h; rfl⟩
-  | e :: es => fun τs => by
-    have ih1 := tc_iff e
-    have ih2 := tcList_iff es
-    simp only [tcList, append_eq_nil', orCrash_none]
+  | e :: es => fun file τs => by
+    have ih1 := tc_iff e file
+    have ih2 := tcList_iff es file
+    simp only [tcList, append_eq_nil']
     constructor
-    · rintro ⟨⟨e1, e2⟩, ⟨c1, c2⟩, rfl⟩
-      exact .cons ((ih1 _).1 ⟨e1, c1, rfl⟩) ((ih2 _).1 ⟨e2, c2, rfl⟩)
+    · rintro ⟨⟨e1, e2⟩, rfl⟩
+      exact .cons ((ih1 _).1 ⟨e1, rfl⟩) ((ih2 _).1 ⟨e2, rfl⟩)
     · intro h
       cases h with
       | cons h1 h2 =>
-        obtain ⟨e1, c1, t1⟩ := (ih1 _).2 h1
-        obtain ⟨e2, c2, t2⟩ := (ih2 _).2 h2
-        exact ⟨⟨e1, e2⟩, ⟨c1, c2⟩, by rw [t1, t2]⟩
+        obtain ⟨e1, t1⟩ := (ih1 _).2 h1
+        obtain ⟨e2, t2⟩ := (ih2 _).2 h2
+        exact ⟨⟨e1, e2⟩, by rw [t1, t2]⟩
 end
 
 end Emboss.Types
